@@ -19,6 +19,22 @@ class Item:
         self.fnkey = fnkey
 
 
+def lazy_sym(modname, fn):
+    """a contract of another property module, resolved when it runs (keeps the import graph of the property modules acyclic)"""
+    def symbolic(vc):
+        import importlib
+        return getattr(importlib.import_module('contracts.' + modname), fn)(vc)
+    return symbolic
+
+
+def lazy_nat(modname, fn):
+    def native(h):
+        import importlib
+        return getattr(importlib.import_module('contracts.' + modname), fn)(h)
+    native.__name__ = fn
+    return native
+
+
 # ------------------------------------------------------------------------------------------------
 # symbolic object factories (pyvc side)
 
